@@ -1,5 +1,35 @@
 import RegressModel.IR.Sem
-open Regress.IR
+import RegressModel.IR.Optimize
+open Regress.IR Regress
+
+/-- Executable version of `Proofs.Lemmas.SemWalk.WF` (for checking the hypothesis of the C03/C04 theorems
+on IR produced by the real parser / optimizer). -/
+partial def decodeAll (bytes : Array Nat) (pos : Nat) (acc : List Nat) : Option (List Nat) :=
+  if pos == bytes.size then some acc.reverse
+  else match Utf8.nextRight bytes pos with
+    | .ok (some (c, p)) => decodeAll bytes p (c :: acc)
+    | _ => none
+
+def validUtf8 (bs : List Nat) : Bool :=
+  match decodeAll bs.toArray 0 [] with
+  | some cs => Utf8.encodeAll cs == bs && cs.all Utf8.isScalar
+  | none => false
+
+def quantOkB (q : Quant) : Bool := match q.max with | none => true | some m => decide (q.min ≤ m)
+
+mutual
+partial def wfB : Node → Bool
+  | .cat ns => ns.all wfB
+  | .alt l r => wfB l && wfB r
+  | .group _ _ c => wfB c
+  | .look _ _ _ _ c => wfB c
+  | .loop b q g0 g1 => wfB b && quantOkB q && (decide (numGroups b = 0) == decide (g1 ≤ g0))
+  | .loop1 b q => wfB b && quantOkB q && decide (numGroups b = 0)
+  | .bracket bc => CPS.wf (toIvList bc.ivs)
+  | .byteSeq bs => validUtf8 bs
+  | .byteSet bs => bs.all (· < 128)
+  | _ => true
+end
 
 def main (args : List String) : IO UInt32 := do
   let path := args.head!
@@ -7,16 +37,24 @@ def main (args : List String) : IO UInt32 := do
   let mut total := 0
   let mut bad := 0
   let mut matched := 0
+  let mut notwf := 0
+  let mut lastIr := ""
   for line in content.splitOn "\n" do
     if line.isEmpty then continue
     match line.splitOn "\t" with
     | [flags, irOpt, irNo, hay, start, expected, label] =>
       total := total + 1
       let st := start.toNat!
-      let exp := expected.replace "_-" "§" |>.replace "_" " " |>.replace "§" "_-"
+      if irOpt != lastIr then
+        lastIr := irOpt
+        for ir in [irOpt, irNo] do
+          match parseCanon ir with
+          | some n => if !wfB n then
+              notwf := notwf + 1
+              IO.println s!"NOT-WF {label} ir={ir}"
+          | none => IO.println s!"unparsable {ir}"
       let a := semFindLine flags irOpt hay st
       let b := semFindLine flags irNo hay st
-      -- expected has '_' for the space after m, but '_' is also an unset capture: normalise both sides
       let norm (s : String) : String := s.replace " " "_"
       if a != "none" then matched := matched + 1
       if norm a != expected then
@@ -25,7 +63,6 @@ def main (args : List String) : IO UInt32 := do
       if norm b != expected then
         bad := bad + 1
         IO.println s!"MISMATCH(noopt) {label} start={st} ir={irNo}: lean={b} engine={expected}"
-      let _ := exp
     | _ => IO.println s!"bad line: {line}"
-  IO.println s!"total={total} matched={matched} mismatches={bad}"
+  IO.println s!"total={total} matched={matched} mismatches={bad} not-wf={notwf}"
   return 0
